@@ -1,4 +1,5 @@
 import Driver.Chess
+import Driver.Engine
 open Driver
 
 def dispatch (line : String) : String :=
@@ -15,6 +16,14 @@ def dispatch (line : String) : String :=
     else if op = "perft" then opPerft args
     else if op = "att" then opAtt args
     else if op = "magic" then opMagic args
+    else if op = "eval" then opEval args
+    else if op = "evalc" then opEvalc args
+    else if op = "see" then opSee args
+    else if op = "tt" then opTT args
+    else if op = "order" then opOrder args
+    else if op = "time" then opTime args
+    else if op = "go" then opGo args
+    else if op = "prep" then opPrep args
     else "bad-op"
 
 partial def loop (hin hout : IO.FS.Stream) : IO Unit := do
